@@ -126,6 +126,7 @@ def render_fbs(S):
             elif k == 'vec_union': tx = '[%s]' % ty
             elif k in ('nested_table', 'nested_struct'): tx = '[ubyte]'; attrs.append('nested_flatbuffer: "%s"' % ty)
             if f['required']: attrs.append('required')
+            if f.get('deprecated'): attrs.append('deprecated')
             fs.append('%s:%s%s;' % (f['name'], tx, ' (%s)' % ', '.join(attrs) if attrs else ''))
         o.append('table %s { %s }' % (t['name'], ' '.join(fs)))
     o.append('root_type %s;' % S['root'])
@@ -141,6 +142,7 @@ def expected_descriptor(S):
     for t in S['tables']:
         fs = []
         for f in t['fields']:
+            if f.get('deprecated'): continue
             k, ty, rq = f['kind'], f.get('type'), 1 if f['required'] else 0
             if k == 'scalar': d = 'S/%d/%d' % (SCALARS[ty], SCALARS[ty]); rq = 0
             elif k == 'struct': d = 'S/%d/%d' % (S['structs'][ty]['size'], S['structs'][ty]['align']); rq = 0
@@ -195,6 +197,7 @@ def render_walker(S, prefix):
         T = t['name']
         o.append('static void walk_%s(%s_table_t t) { size_t i, n; if (!t) return; if (++depth_guard > 5000) { --depth_guard; return; } (void)i; (void)n;' % (T, T))
         for f in t['fields']:
+            if f.get('deprecated'): continue
             k, ty, N = f['kind'], f.get('type'), f['name']
             a = '%s_%s' % (T, N)
             o.append('  sink += (uint64_t)%s_is_present(t);' % a)
@@ -224,4 +227,94 @@ def render_walker(S, prefix):
             elif k == 'nested_struct':
                 o.append('  { flatbuffers_uint8_vec_t v = %s(t); n = flatbuffers_uint8_vec_len(v); if (v) { sink_mem(v, n); walk_%s(%s_as_root(t)); } }' % (a, ty, a))
         o.append('  --depth_guard; }')
+    return '\n'.join(o) + '\n'
+
+
+# ------------------------------------------------------------------ schema evolution (C09)
+def evolve_pair(rng, **kw):
+    """Returns (A, B): B generated, A = B with trailing fields / trailing union members removed and B's
+    `deprecated` marks cleared (i.e. B extends A by appending fields, appending union members and deprecating
+    non-required fields)."""
+    import copy
+    B = gen_schema(rng, **kw)
+    A = copy.deepcopy(B)
+    for t in A['tables']:
+        k = rng.choice([0, 0, 1, 2, 3])
+        keep = max(1, len(t['fields']) - k)
+        t['fields'] = t['fields'][:keep]
+    for ta, tb in zip(A['tables'], B['tables']):
+        for fb in tb['fields'][len(ta['fields']):]: fb['required'] = False     # appended fields must be optional
+    for u in A['unions']:
+        k = rng.choice([0, 1, 2])
+        u['members'] = u['members'][:max(1, len(u['members']) - k)]
+    # B deprecates some non-required fields that A still has
+    for ta, tb in zip(A['tables'], B['tables']):
+        for fa, fb in zip(ta['fields'], tb['fields']):
+            if not fb['required'] and rng.random() < 0.15:
+                fb['deprecated'] = True
+    return A, B
+
+
+def render_dumper(S, mask=None):
+    """C code printing a canonical dump of every field of every reachable object.
+    mask: schema AST of the OTHER (older) version: only fields / union members that exist there are printed
+    (fields deprecated in S print as absent)."""
+    assign_ids(S)
+    mt = {t['name']: {f['name'] for f in t['fields']} for t in (mask or S)['tables']}
+    mu = {u['name']: len(u['members']) for u in (mask or S)['unions']}
+    o = ['static int dump_depth;',
+         'static void dump_hex(const void *p, size_t n) { const uint8_t *q = (const uint8_t *)p; size_t i; for (i = 0; i < n; ++i) printf("%02x", q[i]); }']
+    for nm in S['struct_order']:
+        st = S['structs'][nm]
+        o.append('static void dump_%s(%s_struct_t s) { if (!s) { printf("~"); return; } dump_hex(s, %d); }' % (nm, nm, st['size']))
+    for t in S['tables']: o.append('static void dump_%s(%s_table_t t);' % (t['name'], t['name']))
+    for u in S['unions']:
+        vis = mu.get(u['name'], 0)
+        o.append('static void dump_union_%s(flatbuffers_utype_t type, flatbuffers_generic_t v) { printf("u%%u:", (unsigned)type); if (!v) { printf("~"); return; } switch (type) {' % u['name'])
+        for i, (k, v) in enumerate(u['members']):
+            if i >= vis: continue
+            if k == 't': o.append('  case %d: dump_%s((%s_table_t)v); break;' % (i + 1, v, v))
+            elif k == 's': o.append('  case %d: dump_%s((%s_struct_t)v); break;' % (i + 1, v, v))
+            else: o.append('  case %d: { flatbuffers_string_t s = flatbuffers_string_cast_from_generic(v); dump_hex(s, flatbuffers_string_len(s)); } break;' % (i + 1))
+        o.append('  default: printf("?"); break; } }')
+    for t in S['tables']:
+        T = t['name']
+        o.append('static void dump_%s(%s_table_t t) { size_t i, n; (void)i; (void)n; if (!t) { printf("~"); return; } if (++dump_depth > 200) { printf("DEEP"); --dump_depth; return; } printf("{");' % (T, T))
+        for f in t['fields']:
+            k, ty, N = f['kind'], f.get('type'), f['name']
+            if N not in mt.get(T, set()): continue
+            a = '%s_%s' % (T, N)
+            o.append('  printf("%s=");' % N)
+            if f.get('deprecated'):
+                # no accessor in this version: the other version must see it absent
+                o.append('  printf("%s");' % ('~' if k not in ('union', 'vec_union') else ('u0:~' if k == 'union' else '~')))
+                if k == 'scalar':
+                    o[-1] = '  printf("-"); { %s z; memset(&z, 0, sizeof(z)); dump_hex(&z, sizeof(z)); }' % ({'bool': 'uint8_t', 'byte': 'int8_t', 'ubyte': 'uint8_t', 'short': 'int16_t', 'ushort': 'uint16_t', 'int': 'int32_t', 'uint': 'uint32_t', 'long': 'int64_t', 'ulong': 'uint64_t', 'float': 'float', 'double': 'double'}[ty])
+                o.append('  printf(";");')
+                continue
+            if k == 'scalar':
+                ct = {'bool': 'flatbuffers_bool_t', 'byte': 'int8_t', 'ubyte': 'uint8_t', 'short': 'int16_t', 'ushort': 'uint16_t', 'int': 'int32_t', 'uint': 'uint32_t', 'long': 'int64_t', 'ulong': 'uint64_t', 'float': 'float', 'double': 'double'}[ty]
+                o.append('  { %s v = %s(t); printf("%%s", %s_is_present(t) ? "+" : "-"); dump_hex(&v, sizeof(v)); }' % (ct, a, a))
+            elif k == 'struct': o.append('  dump_%s(%s(t));' % (ty, a))
+            elif k == 'string': o.append('  { flatbuffers_string_t s = %s(t); if (!s) printf("~"); else { printf("\\""); dump_hex(s, flatbuffers_string_len(s)); } }' % a)
+            elif k == 'vec_scalar':
+                c = CNAME[ty]
+                o.append('  { flatbuffers_%s_vec_t v = %s(t); if (!v) printf("~"); else { n = flatbuffers_%s_vec_len(v); printf("[%%u:", (unsigned)n); dump_hex(v, n * %d); printf("]"); } }' % (c, a, c, SCALARS[ty]))
+            elif k == 'vec_struct':
+                o.append('  { %s_vec_t v = %s(t); if (!v) printf("~"); else { n = %s_vec_len(v); printf("[%%u:", (unsigned)n); for (i = 0; i < n; ++i) { dump_%s(%s_vec_at(v, i)); printf(","); } printf("]"); } }' % (ty, a, ty, ty, ty))
+            elif k == 'vec_string':
+                o.append('  { flatbuffers_string_vec_t v = %s(t); if (!v) printf("~"); else { n = flatbuffers_string_vec_len(v); printf("[%%u:", (unsigned)n); for (i = 0; i < n; ++i) { flatbuffers_string_t s = flatbuffers_string_vec_at(v, i); dump_hex(s, flatbuffers_string_len(s)); printf(","); } printf("]"); } }' % a)
+            elif k == 'table': o.append('  dump_%s(%s(t));' % (ty, a))
+            elif k == 'vec_table':
+                o.append('  { %s_vec_t v = %s(t); if (!v) printf("~"); else { n = %s_vec_len(v); printf("[%%u:", (unsigned)n); for (i = 0; i < n; ++i) { dump_%s(%s_vec_at(v, i)); printf(","); } printf("]"); } }' % (ty, a, ty, ty, ty))
+            elif k == 'union':
+                o.append('  { %s_union_t u = %s_union(t); dump_union_%s(u.type, u.value); }' % (ty, a, ty))
+            elif k == 'vec_union':
+                o.append('  { %s_union_vec_t uv = %s_union(t); if (!uv.type) printf("~"); else { n = %s_union_vec_len(uv); printf("[%%u:", (unsigned)n); for (i = 0; i < n; ++i) { %s_union_t u = %s_union_vec_at(uv, i); dump_union_%s(u.type, u.value); printf(","); } printf("]"); } }' % (ty, a, ty, ty, ty, ty))
+            elif k == 'nested_table':
+                o.append('  { flatbuffers_uint8_vec_t v = %s(t); if (!v) printf("~"); else { printf("N"); dump_%s(%s_as_root(t)); } }' % (a, ty, a))
+            elif k == 'nested_struct':
+                o.append('  { flatbuffers_uint8_vec_t v = %s(t); if (!v) printf("~"); else { printf("N"); dump_%s(%s_as_root(t)); } }' % (a, ty, a))
+            o.append('  printf(";");')
+        o.append('  printf("}"); --dump_depth; }')
     return '\n'.join(o) + '\n'
